@@ -206,7 +206,7 @@ XI_GRID = [Fraction(k, 64) for k in range(1, 64)] + [Fraction(1, 256), Fraction(
 
 def gen_cases(ctx):
     rng = ctx.rng
-    n_rand = 500 if ctx.quick else 6000
+    n_rand = 1500 if ctx.quick else 8000
     cases = []
 
     def add(top, mid, old, ld, idx, xi, cb, cf, ML=200, kind="random"):
@@ -358,10 +358,90 @@ def run_ext(ctx):
     if sample := [c for c in cases if c["kind"] == "random"][:2]:
         for c in sample:
             ctx.sample({"ext": "lshoot", "case": c, "model_line": model_line(c)})
+    run_marg(ctx)
+
+
+# ----------------------------------------------------------------------------- the swap matrix as a matrix of marginals
+def gen_weight_matrices(ctx):
+    """weight matrices of the shape C01's runs produce: slot 0 = the [0-] path (weight only in [0-]); every other path
+    has positive integer weights (1 for shooting ensembles, high-acceptance weights for wire fencing) on the ensembles
+    [0+] … [m+] it is valid in, 0 beyond"""
+    rng = ctx.rng
+    out = []
+    for n in (2, 3, 4, 5, 6):
+        for _ in range(40 if ctx.quick else 300):
+            W = [[0] * n for _ in range(n)]
+            W[0][0] = 1
+            wf = [rng.random() < 0.5 for _ in range(n)]
+            # the path in slot r is valid in ensemble r (the current assignment has positive weight) and reaches m ≥ r
+            ms = [rng.randint(r, n - 1) for r in range(1, n)]
+            for r, m in zip(range(1, n), ms):
+                for cidx in range(1, m + 1):
+                    W[r][cidx] = rng.choice((1, 2, 3, 5, 8, 13)) if wf[cidx] else 1
+            out.append(W)
+    return out
+
+
+def run_marg(ctx):
+    """P of the real REPEX_state.inf_retis  ==  matrix of marginals of the distribution ∝ Π_i W[i,σ(i)] over all
+    permutations, computed by the Lean model (`margMatrix`, exact rationals) — the hypothesis that links
+    `swap_rao_blackwell` / `swap_marginal_row_sum` to the code"""
+    import importlib.util  # noqa: F401
+    import contextlib
+    import io
+    import numpy as np
+    from infretis.classes.repex import REPEX_state
+    st = REPEX_state({"current": {"size": 3}, "runner": {"workers": 1}, "simulation": {"seed": 0}}, minus=True)
+    st.rgen = np.random.default_rng(0)
+    mats = gen_weight_matrices(ctx)
+    lines = ["marg %d %s" % (len(W), " ".join(str(x) for row in W for x in row)) for W in mats]
+    model = ctx.driver(lines) if ctx._driver_ok else [None] * len(mats)
+    for W, m in zip(mats, model):
+        n = len(W)
+        ctx.count(1, branch="ext-marg")
+        Wa = np.array(W, dtype=float)
+        try:
+            with contextlib.redirect_stdout(io.StringIO()), np.errstate(all="ignore"):
+                P = np.asarray(st.inf_retis(Wa.copy(), np.zeros(n)), dtype=float)
+            real = "ok"
+        except Exception as e:  # noqa: BLE001
+            P, real = None, err_kind(e)
+        if m is None:
+            continue
+        if m == "none":
+            ctx.hit("ext-marg-zero-permanent")
+            # no assignment has positive weight: the state is unreachable (every live path is valid somewhere); no comparison
+            continue
+        if P is None:
+            ctx.disagree({"fn": "inf_retis vs margMatrix", "W": W}, real, m[:200])
+            continue
+        Q = [float(Fraction(t)) for t in m.split()]
+        if len(Q) != n * n or P.shape != (n, n):
+            ctx.disagree({"fn": "inf_retis vs margMatrix", "W": W}, str(P.shape), m[:200])
+            continue
+        dm = max(abs(P[i][j] - Q[i * n + j]) for i in range(n) for j in range(n))
+        ctx.distinct(("marg", tuple(map(tuple, W))))
+        if dm > 1e-9:
+            # the property predicate itself: P must be the marginal of the permutation distribution
+            ctx.fail("C01:swap:P-is-not-the-marginal-of-the-permutation-distribution",
+                     f"max |P − marginal| = {dm:.3e} for W = {W}: P = {P.tolist()}", {"ext": "marg", "W": W})
 
 
 def replay_ext(ctx, rep):
     """re-run one recorded shooting case; 1 = still fails"""
+    if rep.get("ext") == "marg":
+        import importlib.util  # noqa: F401
+        import numpy as np
+        from infretis.classes.repex import REPEX_state
+        st = REPEX_state({"current": {"size": 3}, "runner": {"workers": 1}, "simulation": {"seed": 0}}, minus=True)
+        W = rep["W"]
+        n = len(W)
+        out = ctx.driver(["marg %d %s" % (n, " ".join(str(x) for row in W for x in row))])[0]
+        P = np.asarray(st.inf_retis(np.array(W, dtype=float), np.zeros(n)), dtype=float)
+        Q = [float(Fraction(t)) for t in out.split()]
+        dm = max(abs(P[i][j] - Q[i * n + j]) for i in range(n) for j in range(n))
+        print("P", P.tolist(), "marginal", out, "max diff", dm)
+        return 1 if dm > 1e-9 else 0
     if rep.get("ext") != "lshoot":
         return 0
     c = rep["case"]
